@@ -39,6 +39,10 @@ pub const QUERY_POOL: &[&str] = &[
     "(list (_)* @items) @lst",
     "(function_definition parameters: (parameters (_)? @p0)) @fn",
     "(_) @any",
+    // several matches that share their root node and differ in an inner capture
+    "(module (expression_statement) @es) @mod",
+    "(argument_list (_) @arg) @al2",
+    "(block (_) @b1) @blk2",
     // one capture name with four different quantifiers (per-stanza resolution of quantifiers)
     "(expression_statement (_) @x) @st",
     "(argument_list (_)* @x) @al",
@@ -322,7 +326,8 @@ impl<'a> Gen<'a> {
                 4 => {
                     // graph nodes are not rendered as text (C02 fragment; numbering differs by mode)
                     let t = *self.r.pick(&[Ty::Int, Ty::Str, Ty::Bool, Ty::Null]);
-                    format!("(format \"<{{}}|{{}}>{{{{}}}}\" {} {})", self.expr(t, d, need_local), self.expr(Ty::Str, d, need_local))
+                    let template = *self.r.pick(&["<{}|{}>{{}}", "<{}|{}>{{}}", "\u{e9}{}\u{2192}{}", "{}\u{65e5}{}}}", "\u{1f600}{{{}{}"]);
+                    format!("(format \"{}\" {} {})", template, self.expr(t, d, need_local), self.expr(Ty::Str, d, need_local))
                 }
                 5 => format!("(replace {} \"{}\" \"{}\")", self.expr(Ty::Str, d, need_local), self.r.pick(&["a", "[0-9]", "(x)", "\\\\s"]), self.r.pick(&["", "Z", "$0$0"])),
                 6 => format!("(join {} \"{}\")", self.expr(Ty::StrList, d, need_local), self.r.pick(&[",", "", "-"])),
@@ -482,7 +487,17 @@ impl<'a> Gen<'a> {
             if !self.shorthands.is_empty() && !self.in_shorthand && self.r.chance(1, 4) {
                 self.feature("shorthand-use");
                 let sh = self.r.pick(&self.shorthands.clone()).clone();
-                items.push(format!("{} = {}", sh, self.expr(Ty::Str, depth, false)));
+                if sh == "shref" {
+                    match self.syn_expr(false) {
+                        Some(sx) if !items.iter().any(|i: &String| i.starts_with("shref ")) => {
+                            self.feature("shorthand-over-scoped-read");
+                            items.push(format!("shref = {}.gn", sx));
+                        }
+                        _ => items.push("flag".to_string()),
+                    }
+                } else {
+                    items.push(format!("{} = {}", sh, self.expr(Ty::Str, depth, false)));
+                }
             } else if self.opts.universal && !self.in_shorthand && self.r.chance(1, 4) && !items.iter().any(|i: &String| i.starts_with("refs ")) {
                 // a comprehension whose element reads a scoped variable defined by another stanza (C08, C02)
                 match self.synlist_expr(false) {
@@ -951,7 +966,17 @@ impl<'a> Gen<'a> {
                     }
                     used.push(re);
                     self.regex_groups = Some(groups);
-                    out.push_str(&format!("{}  \"{}\" {{\n{}{}  }}\n", pad, re.replace('\\', "\\\\"), self.block_k("scan", d, indent + 2, vec![]), pad));
+                    // record every group of the match, participating or not (C10, C02)
+                    let probe = if self.r.chance(1, 2) {
+                        self.counter += 1;
+                        let n = format!("gp{}", self.counter);
+                        self.feature("regex-group-probe");
+                        let attrs: Vec<String> = (0..=groups).map(|k| format!("g{} = ${}", k, k)).collect();
+                        format!("{}    node {}\n{}    attr ({}) {}\n", pad, n, pad, n, attrs.join(", "))
+                    } else {
+                        String::new()
+                    };
+                    out.push_str(&format!("{}  \"{}\" {{\n{}{}{}  }}\n", pad, re.replace('\\', "\\\\"), probe, self.block_k("scan", d, indent + 2, vec![]), pad));
                 }
                 self.regex_groups = saved;
                 out.push_str(&format!("{}}}\n", pad));
@@ -1089,6 +1114,12 @@ pub fn gen_program(r: &mut Rng, pool: &[Pattern], opts: &Opts) -> Program {
         text.push_str(&format!("global {}{} ;FAULT\n", gname, q));
         header_fault = Some(StaticFault { rule: "duplicate-global".to_string(), variant: "DuplicateGlobalVariable".to_string(), context: "header".to_string(), form: "global".to_string(), loc_token: Some(gname) });
         static_pending = false;
+    }
+    if opts.universal && g.r.chance(1, 2) {
+        // a shorthand that passes its argument on unformatted: used with scoped reads (`shref = @x.gn`)
+        g.feature("shorthand-decl");
+        text.push_str("attribute shref = r => ref = r\n");
+        g.shorthands.push("shref".to_string());
     }
     let universal = opts.universal;
     let header = text.clone();
